@@ -492,11 +492,19 @@ def rewrite_body(text, rules_log, intended_panics=False, keep_asserts=False):
                         i = close + 1
                         continue
         # R14: a datatype constructor used as a function value, `.map(Some)` -> eta-expanded closure with its spec
-        if t.kind == "ident" and t.text in ("map", "map_err") and _prev_sig(toks, i - 1) >= 0 and toks[_prev_sig(toks, i - 1)].text == ".":
+        if t.kind == "ident" and t.text in ("map", "map_err", "map_ok") and _prev_sig(toks, i - 1) >= 0 and toks[_prev_sig(toks, i - 1)].text == ".":
             j = _next_sig(toks, i + 1)
             if j < n and toks[j].text == "(":
                 close = match_close(toks, j)
                 inner = [x for x in toks[j + 1:close] if x.kind not in ("ws", "comment")]
+                if len(inner) == 3 and inner[1].text == "::" and inner[0].kind == "ident" and inner[2].kind == "ident" \
+                        and inner[2].text[:1].isupper() and inner[0].text[:1].isupper():
+                    # an enum variant constructor path, `.map_err(ConnectError::Resolver)`
+                    c = inner[0].text + "::" + inner[2].text
+                    rules_log.append(("R14", f".{t.text}({c}) -> .{t.text}(|v| {c}(v)) with `ensures o == {c}(v)`"))
+                    out.append(Tok("ident", f"{t.text}(|v| -> (o: _) ensures (o matches {c}(r14_w) && r14_w == v) {{ {c}(v) }})", t.pos))
+                    i = close + 1
+                    continue
                 if len(inner) == 1 and inner[0].text in ("Some", "Ok", "Err"):
                     c = inner[0].text
                     ty = "Option<_>" if c == "Some" else "Result<_, _>"
